@@ -28,7 +28,7 @@ ALL_INVARIANTS = [
     'A2DEqualIters', 'DoneIffStageDone', 'IterBudget', 'NiterFaithful', 'ResidualFresh', 'EndPointFresh',
     'DoneAfterSweep', 'TileStart', 'TileContiguous', 'NoStartBeyondTend', 'NoEarlyStop', 'ChainValues',
     'ReturnIsLast', 'CarryConsistent', 'NextBlockStartsAtEnd', 'NothingOnlyIfEmpty', 'PosDt', 'FixedStepCount',
-    'OneDtPerBlock', 'RetryBudget', 'CrashOnlyAfterBudget', 'StatsOnePerStep', 'StatsNiter',
+    'OneDtPerBlock', 'RetryBudget', 'CrashOnlyAfterBudget', 'StatsOnePerStep', 'StatsNiter', 'StatsIterRecords',
 ]
 
 # which property a model invariant belongs to
@@ -41,7 +41,7 @@ INV_PROPERTY = {
     'NoEarlyStop': 'C06', 'ChainValues': 'C06', 'ReturnIsLast': 'C06', 'CarryConsistent': 'C06',
     'NextBlockStartsAtEnd': 'C06', 'NothingOnlyIfEmpty': 'C06', 'PosDt': 'C06', 'FixedStepCount': 'C06',
     'OneDtPerBlock': 'C09', 'RetryBudget': 'C09', 'CrashOnlyAfterBudget': 'C09',
-    'StatsOnePerStep': 'C14', 'StatsNiter': 'C14',
+    'StatsOnePerStep': 'C14', 'StatsNiter': 'C14', 'StatsIterRecords': 'C14',
 }
 
 # which property a trace clause belongs to
@@ -66,6 +66,7 @@ CLAUSE_PROPERTY = {
     'conf.error': 'C09',
     'val.u0_copied': 'C13', 'val.caller_u0_unchanged': 'C13', 'val.logged_unchanged': 'C13',
     'stats.entries': 'C14', 'stats.one_per_step': 'C14', 'stats.niter': 'C14', 'stats.filter': 'C14',
+    'stats.iteration_records': 'C14', 'stats.filter_without_type': 'C14',
 }
 
 
